@@ -3,6 +3,21 @@
 import json, os, subprocess
 
 CLAIMS = {
+ "C01": dict(
+   category="exploration", design_ref="DESIGN.md §5 C01",
+   technique="property-based testing (rapid): abstract value model as oracle over generated values × builder call programs × node implementations; self-consistency of every read path; DeepEqual/Copy vs model equality",
+   text="Generated data-model trees are built through drawn legal builder programs (size hints, AssembleEntry vs key/value, scalar assign vs AssignNode of nodes from other implementations) on basicnode (Any and kind-specific prototypes) and bindnode (typed Any containers, type and representation level; typed schemas are covered under C08/C09/C13 with the same reader). The full reader must return exactly the abstract value and finds any disagreement between Length, iterators and all lookup forms, and any wrong-kind accessor that does not return ErrWrongKind. DeepEqual must equal model equality on rebuilt and one-point-mutated pairs across implementations, Copy must reproduce the value. Exploration: no counterexample in the generated space.",
+   note="Trusted: Go toolchain, rapid, the abstract value model and reader in harness/val and harness/nodes."),
+ "C03": dict(
+   category="exploration", design_ref="DESIGN.md §5 C03, Appendix C",
+   technique="differential testing against an independent reference strict DAG-CBOR decoder: exhaustive enumeration of all short byte strings, rapid-generated structural and byte-level mutants of valid encodings, token soup",
+   text="Every byte string of length 0..2 (quick) / 0..3 (thorough) is enumerated in strict, relaxed and no-links mode, and generated mutants of valid encodings (longer heads, indefinite lengths, tags anywhere, narrow floats, NaN/Inf, undefined, simple values, duplicate/unsorted/non-string keys, CID damage, negative-int boundaries, truncation, extension, bit flips) are decoded by the implementation and by a reference decoder written from RFC 8949 + the DAG-CBOR spec; accept/reject must agree and on accept the node read back must equal the reference's denotation. Exhaustive for the short strings, exploration beyond.",
+   note="Trusted: the reference decoder in harness/refcbor; cid.Cast defines CID validity; inputs stay far inside the resource limits so those never decide."),
+ "C04": dict(
+   category="exploration", design_ref="DESIGN.md §5 C04",
+   technique="property-based round-trip and metamorphic testing (rapid): decode(encode(v)) vs the abstract value with kinds, byte-identical output across insertion orders and implementations, key order and JSON validity checked with the standard library tokenizer",
+   text="Generated DAG-JSON-expressible values (reserved shapes excluded by construction at every level) are encoded from a permuted insertion order, a drawn builder program and implementation; output must be identical to the default build's output, valid JSON with ascending bytewise keys at every level, and decode (into basicnode and the source implementation) to the key-sorted value with identical kinds; the plain json codec must round-trip in insertion order and refuse bytes/links. One known finding (integral floats) is listed and steered around.",
+   note="Trusted: encoding/json tokenizer for validity and key order; abstract value model. Known finding C04-integral-float excluded by construction (counted in excluded_known)."),
  "C02": dict(
    category="exploration", design_ref="DESIGN.md §5 C02",
    technique="property-based differential testing (rapid) against an independent reference canonical DAG-CBOR encoder, plus permutation/implementation metamorphic relations and a completely enumerated head-size boundary table",
